@@ -553,14 +553,11 @@ def _calls_of(fn, name):
 
 
 def _name_order_use(pkg, f, qual, fn, name, depth=0) -> str:
-    """What becomes of the order of the list bound (once) to the local `name` of fn: 'free' -- it is only scanned by comprehensions
+    """What becomes of the order of the list bound to the local `name` of fn: 'free' -- it is only scanned by comprehensions
     that feed a set / an order-insensitive consumer, here or in the functions a private helper returns it to; 'sensitive' -- some
     use could let the order through; 'unknown' -- it is returned to callers this rule cannot match."""
     par = _parents(fn)
-    params = {a.arg for a in fn.args.args + fn.args.kwonlyargs + fn.args.posonlyargs}
-    stores = [n for n in ast.walk(fn) if isinstance(n, ast.Name) and n.id == name and isinstance(n.ctx, (ast.Store, ast.Del))]
-    if len(stores) != 1 or name in params:
-        return "sensitive"
+    # (every read of the local is judged: whatever else is bound to the name meets the same uses)
     verdict = "free"
     loads = [n for n in ast.walk(fn) if isinstance(n, ast.Name) and n.id == name and isinstance(n.ctx, ast.Load)]
     for l in loads:
@@ -767,10 +764,8 @@ def _listing_use(pkg, f, line, fname) -> str:
         if isinstance(p_, ast.Assign) and p_.value is n and len(p_.targets) == 1 and isinstance(p_.targets[0], ast.Name):
             name = p_.targets[0].id
             verdict = "empty"
-            stores = [x for x in ast.walk(fn) if isinstance(x, ast.Name) and x.id == name and isinstance(x.ctx, (ast.Store, ast.Del))]
+            # (every read of the local is judged: whatever else is bound to the name meets the same uses)
             loads = [x for x in ast.walk(fn) if isinstance(x, ast.Name) and x.id == name and isinstance(x.ctx, ast.Load)]
-            if len(stores) != 1:
-                return "used"
             for l in loads:
                 v = value_use(l, qual, depth)
                 if v == "used":
